@@ -522,7 +522,9 @@ pub fn x86_case(modes: Vec<Mode>) -> impl Strategy<Value = X86Case> {
         4 => 0x1000u64..(1u64 << 47),
         1 => 0x1000u64..0x1000_0000,
         1 => (0x10u64..(1u64 << 35), 0xFF0u64..=0xFFF).prop_map(|(p, o)| (p << 12) | o),
-        1 => any::<u64>().prop_map(|a| a.max(1)),
+        // any address of the lower half (a function cannot sit in the last bytes of the address
+        // space: its entry slot would wrap around zero)
+        1 => any::<u64>().prop_map(|a| (a & 0x7FFF_FFFF_FFFF_FFFF).max(0x1000)),
     ];
     // displacement of the trampoline relative to func+5
     let jd = prop_oneof![
